@@ -131,7 +131,7 @@ class MolGraph:
         return color_refine_hash_mg(self)
 
     def __eq__(self, other: object) -> bool:
-        if not isinstance(other, self.__class__):
+        if other.__class__ is not self.__class__:
             return NotImplemented
         if len(self) == 0 and len(other) == 0:
             return True
